@@ -85,10 +85,14 @@ def mj_obj(I, m=None):
     if m is not None:
         attrs.update({"max_useful_life": m, "useful_life_at_arrival_distribution_c_0": arr_from_list([z3.Real(f"c0_{i}") for i in range(m - 1)]),
                       "useful_life_at_arrival_distribution_c_1": arr_from_list([z3.Real(f"c1_{i}") for i in range(m - 1)])})
-    return Obj(cls, attrs, label="problem"), D, NW, DW
+    o = Obj(cls, attrs, label="problem")
+    if m is not None:
+        # the derived attributes come from the REAL set-up hook (not hand-built), so that code which precomputes something there is covered
+        for k in range(7): I.assume(z3.And(NW(k) > 0, DW(k) > 0))
+        I.call(I.getattr(o, "_setup_before_space_construction"), [], {})
+    return o, D, NW, DW
 def setup_mj_p(I):
-    o, D, NW, DW = mj_obj(I, 2); w = z3.Int("w!"); 
-    for k in range(7): I.assume(z3.And(NW(k) > 0, DW(k) > 0))
+    o, D, NW, DW = mj_obj(I, 2)
     return Ctx(self=o, _args=[], NW=NW, DW=DW)
 def post_mj_p(c, q):
     w = z3.Int("w!p"); q.hyps += [w >= 0, w <= 6, c.NW(w) > 0, c.DW(w) > 0]
